@@ -224,7 +224,10 @@ async fn handle_stream(
             };
         }
 
-        let tx = ts.get_mut(topic).unwrap();
+        // Hand the socket over through our own handle to the topic, with the table unlocked:
+        // a topic whose registration queue is full must not block registrations on others.
+        let mut tx = ts.get(topic).unwrap().clone();
+        drop(ts);
 
         match frame {
             Frame::RegisterPublisher(_) => {
